@@ -179,7 +179,7 @@ class MayRaise:
             kw = {}
             if f.cls:
                 kw["frozen_fields"] = self.eng.init_only_fields(f"{f.module}.{f.cls}")
-            SymEval(self.eng.ce, f, on_index=hook, **kw).run()
+            SymEval(self.eng.ce, f, on_index=hook, inline=self.eng.inline_policy, **kw).run()
         except Exception:
             return
         per_node = {}
@@ -358,7 +358,10 @@ class MayRaise:
             out |= self._expr(t.value)
             if not isinstance(t.slice, ast.Slice):
                 out |= self._expr(t.slice)
-                out.add(self._mk("IndexError", t, f"item store {norm(t)[:50]}"))
+                # an item store raises IndexError only on a sequence; containers held in instance fields are mappings here
+                # (dict displays / dict()), so only stores into local / parameter sequences are counted
+                if isinstance(t.value, ast.Name):
+                    out.add(self._mk("IndexError", t, f"item store {norm(t)[:50]}"))
         elif isinstance(t, ast.Attribute):
             out |= self._expr(t.value)
             # attribute store on self goes through __setattr__ of the class
